@@ -395,7 +395,14 @@ def part(r, tier, seed, prefixes):
     for k, c in out["cov"].items():
         r.cov[k] = r.cov.get(k, 0) + c
     seen = set()
-    for x, script, tp in out["violations"]:
+    vio = list(out["violations"])
+    if "C10." in prefixes:
+        # C10 "never ... an internal bug error, whatever arrives": a call that panicked or answered with an internal
+        # error is also a C10 violation (the datagram sequences here are ones a peer can produce)
+        for x, script, tp in out["violations"]:
+            if x["rule"] == "Reasm.NoPanic" or str(x.get("ctx", "")).endswith(("/err", "panic")):
+                vio.append((dict(x, rule="C10.NoBugError", ctx=x["rule"] + "@" + str(x.get("ctx", ""))), script, tp))
+    for x, script, tp in vio:
         if not x["rule"].startswith(prefixes):
             continue
         sig = core.signature(x)
